@@ -161,24 +161,9 @@ func checkC13(p *Prog, res *Result, tier string) {
 		sc := c.Common().StaticCallee()
 		return sc != nil && sc.Name() == "Wait" && sc.Signature.Recv() != nil && isNamed(sc.Signature.Recv().Type(), "sync", "WaitGroup")
 	}
-	// the parallel scan driver: the scanner function that starts goroutines and waits for them on a WaitGroup
-	for _, f := range p.AllFuncs {
-		if f.Pkg != sp || f.Synthetic != "" || f.Parent() != nil {
-			continue
-		}
-		hasGo, hasWait := false, false
-		for _, c := range callsIn(f) {
-			if _, ok := c.(*ssa.Go); ok {
-				hasGo = true
-			}
-			if isWGWait(c) {
-				hasWait = true
-			}
-		}
-		if hasGo && hasWait {
-			scanFn = f
-		}
-	}
+	// the parallel scan driver: the scanner function that (itself or through helpers of the package) starts goroutines
+	// and waits for them on a WaitGroup, and none of whose helpers does both already
+	scanFn, scanRg := parallelScanDriver(p, sp, isWGWait)
 	rangeStreamM := p.ifaceMethod("pkg/backend/scanner", "Scanner", "RangeStream")
 	for _, rsImpl := range p.implsOf(rangeStreamM) {
 		if rsImpl.Pkg != sp {
@@ -293,70 +278,83 @@ func checkC13(p *Prog, res *Result, tier string) {
 
 	// ---- R3 ----
 	if scanFn != nil {
-		// the worker closure started by go in scan
-		var worker *ssa.Function
-		for _, c := range callsIn(scanFn) {
-			if g, ok := c.(*ssa.Go); ok {
-				for _, f := range p.calleesOf(g) {
-					worker = f
-				}
+		// the worker goroutines: whatever the go statements of the driver's region start
+		var workers []*ssa.Function
+		var goSites []*ssa.Go
+		for _, ch := range scanRg.chainsIn(p, func(ins ssa.Instruction) bool { _, ok := ins.(*ssa.Go); return ok }) {
+			g := ch.target.(*ssa.Go)
+			goSites = append(goSites, g)
+			for _, f := range p.calleesOf(g) {
+				workers = append(workers, f)
 			}
 		}
-		if worker == nil {
+		if len(workers) == 0 {
 			res.und("C13-R3", funcName(scanFn), p.pos(scanFn.Pos()), "worker goroutine not found")
 		} else {
-			// every IndexAddr store in the worker into a captured slice uses the goroutine's index parameter
-			construct := funcName(worker) + ": writes only its own index of the shared slices"
-			bad, n := false, 0
-			var idxParam *ssa.Parameter
-			if len(worker.Params) == 1 {
-				idxParam = worker.Params[0]
-			}
-			for _, b := range worker.Blocks {
-				for _, ins := range b.Instrs {
-					st, ok := ins.(*ssa.Store)
-					if !ok {
-						continue
-					}
-					ia, ok := st.Addr.(*ssa.IndexAddr)
-					if !ok {
-						continue
-					}
-					// shared slice: loaded from a free variable
-					if ld, ok := ia.X.(*ssa.UnOp); ok {
-						if _, isFV := ld.X.(*ssa.FreeVar); isFV {
-							n++
-							if idxParam == nil || resolve(ia.Index) != ssa.Value(idxParam) {
+			for wi, worker := range workers {
+				// every element store of the worker into a slice it shares with the other workers (captured, or reached
+				// through a parameter object) uses the goroutine's own index parameter
+				construct := funcName(worker) + ": writes only its own index of the shared slices"
+				bad, n := false, 0
+				for _, b := range worker.Blocks {
+					for _, ins := range b.Instrs {
+						st, ok := ins.(*ssa.Store)
+						if !ok {
+							continue
+						}
+						ia, ok := st.Addr.(*ssa.IndexAddr)
+						if !ok || !sharedWithSiblings(ia.X) {
+							continue
+						}
+						n++
+						prm, isPrm := resolve(ia.Index).(*ssa.Parameter)
+						if !isPrm || prm.Parent() != worker {
+							bad = true
+							res.bad("C13-R3", construct, p.pos(st.Pos()), "a worker goroutine writes an element of a shared slice at an index other than its own partition index")
+							continue
+						}
+						// the index handed to the goroutine differs from one goroutine to the next: not a constant
+						if a := goActual(goSites[wi], prm); a != nil {
+							if _, isConst := resolve(a).(*ssa.Const); isConst {
 								bad = true
-								res.bad("C13-R3", construct, p.pos(st.Pos()), "a worker goroutine writes an element of a shared slice at an index other than its own partition index")
+								res.bad("C13-R3", construct, p.pos(goSites[wi].Pos()), "every worker goroutine is started with the same constant index: they all write the same element of the shared slices")
 							}
 						}
 					}
 				}
-			}
-			if !bad && n > 0 {
-				res.ok("C13-R3", construct, p.pos(worker.Pos()), fmt.Sprintf("%d shared-slice stores, all at the goroutine's index parameter", n))
-			}
-			// merge happens after Wait, ranging over the receiver list in index order
-			var wait, merge ssa.Instruction
-			for _, c := range callsIn(scanFn) {
-				if isWGWait(c) {
-					wait = c.(ssa.Instruction)
+				if !bad && n > 0 {
+					res.ok("C13-R3", construct, p.pos(worker.Pos()), fmt.Sprintf("%d shared-slice stores, all at the goroutine's index parameter", n))
 				}
 			}
-			// the merge of the forked receivers: in the driver itself or in a helper it calls
-			for _, ch := range enumerateChains(p, scanFn, func(ins ssa.Instruction) bool {
+			// merge happens after Wait on every path of the driver (helpers inlined), ranging over the receiver list in
+			// index order
+			isMerge := func(ins ssa.Instruction) bool {
 				c, ok := ins.(ssa.CallInstruction)
 				return ok && c.Common().IsInvoke() && c.Common().Method == mergeM
-			}, func(g *ssa.Function) bool { return g.Pkg == sp && g.Parent() == nil }, 3) {
+			}
+			var wait, merge ssa.Instruction
+			for _, ch := range scanRg.chainsIn(p, func(ins ssa.Instruction) bool {
+				c, ok := ins.(ssa.CallInstruction)
+				return ok && isWGWait(c)
+			}) {
+				wait = ch.target
+			}
+			for _, ch := range scanRg.chainsIn(p, isMerge) {
 				merge = ch.target
 			}
-			construct = funcName(scanFn) + ": merge in partition order after all workers finished"
+			construct := funcName(scanFn) + ": merge in partition order after all workers finished"
+			var early ssa.Instruction
+			if wait != nil && merge != nil {
+				early, _, _ = scanRg.search(&frame{fn: scanFn}, scanFn.Blocks[0], 0, superOpts{
+					stop: func(i ssa.Instruction, _ *frame) bool { c, ok := i.(ssa.CallInstruction); return ok && isWGWait(c) },
+					bad:  func(i ssa.Instruction, _ *frame) bool { return isMerge(i) },
+				})
+			}
 			switch {
 			case wait == nil || merge == nil:
 				res.bad("C13-R3", construct, p.pos(scanFn.Pos()), "WaitGroup.Wait or the merge of the forked receivers is missing")
-			case !instrDominates(wait, merge):
-				res.bad("C13-R3", construct, p.pos(merge.Pos()), "forked receivers are merged before all partition workers have finished")
+			case early != nil:
+				res.bad("C13-R3", construct, p.pos(early.Pos()), "forked receivers are merged before all partition workers have finished")
 			default:
 				// merged receiver comes from a range-by-index over the receiver list (ascending)
 				arg := merge.(ssa.CallInstruction).Common().Args[0]
@@ -374,7 +372,7 @@ func checkC13(p *Prog, res *Result, tier string) {
 					}
 				}
 				if okOrder {
-					res.ok("C13-R3", construct, p.pos(merge.Pos()), "Wait dominates the merge loop, which ranges over the receiver list by ascending index")
+					res.ok("C13-R3", construct, p.pos(merge.Pos()), "Wait precedes the merge loop on every path, which ranges over the receiver list by ascending index")
 				} else {
 					res.bad("C13-R3", construct, p.pos(merge.Pos()), "forked receivers are not merged in partition-index order")
 				}
@@ -804,4 +802,106 @@ func crossesBackEdgeOnly(a, b ssa.Instruction) bool {
 	}
 	walk(pa.b, pa.i+1)
 	return !found
+}
+
+// parallelScanDriver: the function of the scanner package whose region (itself plus the package's helpers it calls
+// synchronously) contains both a go statement and a WaitGroup.Wait, and none of whose helpers has both already.
+func parallelScanDriver(p *Prog, sp *ssa.Package, isWGWait func(ssa.CallInstruction) bool) (*ssa.Function, *fnRegion) {
+	descend := func(g *ssa.Function) bool { return g.Pkg == sp && g.Synthetic == "" }
+	type has struct{ goStmt, wait bool }
+	memo := map[*ssa.Function]has{}
+	var scan func(f *ssa.Function, d int) has
+	scan = func(f *ssa.Function, d int) has {
+		if h, ok := memo[f]; ok {
+			return h
+		}
+		memo[f] = has{}
+		var h has
+		for _, c := range callsIn(f) {
+			switch c.(type) {
+			case *ssa.Go:
+				h.goStmt = true
+				continue
+			case *ssa.Defer:
+				continue
+			}
+			if isWGWait(c) {
+				h.wait = true
+			}
+			if sc := c.Common().StaticCallee(); sc != nil && sc.Blocks != nil && descend(sc) && d < 3 {
+				hh := scan(sc, d+1)
+				h.goStmt = h.goStmt || hh.goStmt
+				h.wait = h.wait || hh.wait
+			}
+		}
+		memo[f] = h
+		return h
+	}
+	var cands []*ssa.Function
+	for _, f := range p.AllFuncs {
+		if f.Pkg != sp || f.Synthetic != "" || f.Parent() != nil {
+			continue
+		}
+		memo = map[*ssa.Function]has{}
+		if h := scan(f, 0); h.goStmt && h.wait {
+			cands = append(cands, f)
+		}
+	}
+	isCand := map[*ssa.Function]bool{}
+	for _, f := range cands {
+		isCand[f] = true
+	}
+	var driver *ssa.Function
+	for _, f := range cands {
+		minimal := true
+		for _, c := range callsIn(f) {
+			if sc := c.Common().StaticCallee(); sc != nil && sc != f && isCand[sc] {
+				minimal = false
+			}
+		}
+		if minimal {
+			driver = f
+		}
+	}
+	if driver == nil {
+		return nil, nil
+	}
+	return driver, &fnRegion{root: driver, descend: descend}
+}
+
+// sharedWithSiblings: a slice value that the goroutine did not make itself - loaded from a captured variable, from a
+// field of an object it was handed, or handed to it directly.
+func sharedWithSiblings(v ssa.Value) bool {
+	switch x := resolve(v).(type) {
+	case *ssa.Parameter, *ssa.FreeVar:
+		return true
+	case *ssa.UnOp:
+		if x.Op != token.MUL {
+			return false
+		}
+		switch a := x.X.(type) {
+		case *ssa.FreeVar:
+			return true
+		case *ssa.FieldAddr:
+			switch resolve(a.X).(type) {
+			case *ssa.Parameter, *ssa.FreeVar:
+				return true
+			case *ssa.UnOp:
+				return sharedWithSiblings(a.X)
+			}
+		}
+	}
+	return false
+}
+
+// goActual: the argument a go statement passes for parameter prm of the function it starts.
+func goActual(g *ssa.Go, prm *ssa.Parameter) ssa.Value {
+	idx := paramIndex(prm)
+	args := g.Common().Args
+	if _, isClosure := g.Common().Value.(*ssa.MakeClosure); isClosure || g.Common().StaticCallee() != nil {
+		if idx >= 0 && idx < len(args) {
+			return args[idx]
+		}
+	}
+	return nil
 }
